@@ -83,15 +83,18 @@ Record kcase := mkKCase {
   k_reopen2_same : bool;                  (* a second reopen shows the same root, key and content *)
   k_key_same : bool;                      (* signing key unchanged w.r.t. what the writer saw *)
   k_one_meta : bool;                      (* exactly one meta row *)
-  k_one_root : bool }.                    (* the instance root is the lower end of a top-level edge (the only one after a kill during initialisation) *)
+  k_one_root : bool;
+  k_resumed : bool;                       (* after the recovery the unacknowledged tail of the script was sent again and answered *)
+  k_root_final : bytes; k_final : list edge_view }.   (* ... and this is what the store holds then *)                    (* the instance root is the lower end of a top-level edge (the only one after a kill during initialisation) *)
 
 Definition kcase_of_val (v : val) : option kcase :=
   match v with
-  | VL [hi; root; init; ops; acked; rok; root2; after; r2; ks; om; orr] =>
+  | VL [hi; root; init; ops; acked; rok; root2; after; r2; ks; om; orr; rs; root3; final] =>
+      rs <- get_bool rs ;; root3 <- get_b root3 ;; final <- views_of_val final ;;
       hi <- get_bool hi ;; root <- get_b root ;; init <- views_of_val init ;; ops <- get_list op_of_val ops ;;
       acked <- get_nat acked ;; rok <- get_bool rok ;; root2 <- get_b root2 ;; after <- views_of_val after ;;
       r2 <- get_bool r2 ;; ks <- get_bool ks ;; om <- get_bool om ;; orr <- get_bool orr ;;
-      Some (mkKCase hi root init ops acked rok root2 after r2 ks om orr)
+      Some (mkKCase hi root init ops acked rok root2 after r2 ks om orr rs root3 final)
   | _ => None
   end.
 
@@ -101,11 +104,18 @@ Definition after_prefix (c : kcase) (j : nat) : bool :=
   let st := run_ops (store_of_views (k_root c) (k_init c)) (firstn j (k_ops c)) in
   views_eqb (project st) (k_after c) && bytes_eqb (s_root st) (k_root_after c).
 
+(* nothing acknowledged is lost even where a dump cannot show it (points of a node that has no edge yet): when the
+   client carries on after the recovery - the request in flight and everything after it, sent again - the store ends
+   in the state of the uninterrupted run (re-sending is harmless by C01) *)
+Definition resumed_ok (c : kcase) : bool :=
+  let st := run_ops (store_of_views (k_root c) (k_init c)) (k_ops c) in
+  k_resumed c && views_eqb (project st) (k_final c) && bytes_eqb (s_root st) (k_root_final c) && spec_hashes_ok (k_final c).
+
 Definition check_c04_case (c : kcase) : N :=
   let basic := k_reopen_ok c && k_reopen2_same c && k_key_same c && k_one_meta c && k_one_root c && spec_hashes_ok (k_after c) in
   if k_has_init c then
     let atomic := after_prefix c (k_acked c) || after_prefix c (S (k_acked c)) in
     (* model prefix = observed recovery: both the correspondence and the atomicity specification *)
-    code atomic (basic && atomic)
+    code (atomic && resumed_ok c) (basic && atomic && resumed_ok c)
   else code true basic.
 Definition check_c04 := check_with kcase_of_val check_c04_case.
